@@ -421,8 +421,10 @@ int main(int argc, char** argv) {
         // differential oracle: a brand-new engine without history builds the same key
         quietLog = true; Mode savedMode = mode; mode = SYNC; long savedCancel = cancelAt; cancelAt = -1;
         int cv;
+        auto savedExt = ext;       // the reference build must not leave side effects behind (output cells it writes)
         { Del d2; BuildEngine e2(d2); BuildEngine* savedE = gEngine; gEngine = &e2;
           cv = I(e2.build(bytesOf(toks[1]))); gEngine = savedE; }
+        ext = savedExt;
         mode = savedMode; cancelAt = savedCancel; quietLog = false; sawCycle = false; sawError = false;
         emit("{\"e\":\"CleanCheck\",\"k\":" + q(toks[1]) + ",\"v\":" + std::to_string(iv) + ",\"clean\":" + std::to_string(cv) + "}");
       }
